@@ -490,6 +490,23 @@ class BlockInterp:
             return "next"
         if isinstance(st, ast.Pass):
             return "next"
+        if isinstance(st, ast.Delete):
+            for t in st.targets:
+                if isinstance(t, ast.Subscript):
+                    obj = self.me.ev(t.value)
+                    key = self.me.ev(t.slice)
+                    if isinstance(obj, (dict, list)):
+                        try:
+                            del obj[key]
+                        except (KeyError, IndexError) as e:
+                            raise ModelRaise(type(e).__name__, str(e))
+                    else:
+                        raise Unsupported(f"del item of {type(obj).__name__}")
+                elif isinstance(t, ast.Name):
+                    self.me.env.pop(t.id, None)
+                else:
+                    raise Unsupported(f"del {norm(t)}")
+            return "next"
         if isinstance(st, ast.FunctionDef):
             self.me.env[st.name] = self.make_closure(st)
             return "next"
